@@ -42,6 +42,11 @@ def resolution_classes(ctx):
     return names, f, cm
 
 
+# clauses that report a construct they found (a write, a computed value), not a pattern they
+# failed to find: the idiom guard of sa/idioms.py does not apply to them
+IDIOM_GUARD_EXEMPT = {"prefix-offsets", "value-fields", "eq-hash"}
+
+
 def check(ctx, rep, tier):
     rep.describe("value-fields", "for each resolution class the attribute list consulted by "
                  "__eq__/__hash__ (as bound after abstract interpretation of its constructor "
